@@ -19,6 +19,7 @@
 
 #include <cctype>                    // to get std::tolower
 #include <cstdarg>                   // to get va_start, va_end
+#include <limits>                    // to get std::numeric_limits
 
 
 namespace uncrustify
@@ -589,7 +590,10 @@ bool read_number(const char *in, Option<T> &out)
    char       *c;
    const auto val = std::strtol(in, &c, 10);
 
-   if (  *c == 0
+   if (  c != in                  // an empty value is not the number 0
+      && *c == 0
+      && static_cast<long long>(val) >= static_cast<long long>(std::numeric_limits<T>::min())
+      && static_cast<long long>(val) <= static_cast<long long>(std::numeric_limits<T>::max())
       && out.validate(val))
    {
       out.m_val = static_cast<T>(val);
@@ -597,7 +601,7 @@ bool read_number(const char *in, Option<T> &out)
    }
    bool invert = false;
 
-   if (strchr("-", in[0]))
+   if (in[0] == '-')              // strchr() would find the terminating NUL, too
    {
       invert = true;
       ++in;
@@ -710,7 +714,8 @@ bool Option<bool>::read(const char *in)
    }
    bool invert = false;
 
-   if (strchr("~!-", in[0]))
+   if (  in[0] != 0               // strchr() finds the terminating NUL, too
+      && strchr("~!-", in[0]))
    {
       invert = true;
       ++in;
